@@ -10,6 +10,17 @@ NOTE = ("Trusted: Coq 8.16.1 kernel + vm_compute; no axioms (Print Assumptions c
         "its ExtrOcamlBasic extraction vs the implementation built from the working tree); Rust harness, python generators.")
 
 CHECKS = {
+    "C19": dict(
+        category="proof",
+        text="Theorems for ALL byte streams and ALL segmentations (Props/C19.v) over the model of LSCodec::decode/encode and of "
+             "tokio_util's FramedRead loop: decode verdicts are final under arriving bytes (C19_mono), the item sequence and "
+             "the error point are a function of the concatenated stream alone (C19_chunking, C19_chunking_any), lengths are byte "
+             "counts and encode/decode round-trip for every body below 2^64 bytes (C19_bytes, C19_encode, C19_length_roundtrip, "
+             "C19_stream). The model is tied to the real codec (io.rs + httparse + FramedRead, called directly) on every prefix, "
+             "every two-way split and random multi-way splits of generated streams (extracted judge on all cases, coqc VM judge "
+             "on a sample), and the built binary is run under segmented writes. httparse's header grammar is modelled, not verified.",
+        design_ref="DESIGN.md section 5, C19",
+        technique="Coq proof (prefix-monotonicity of decode, induction over chunks) over a Gallina model of the codec + correspondence against the real codec and binary"),
     "C08": dict(
         category="proof",
         text="Theorems for all texts, positions and change sequences (Props/C08.v) over the model of document.rs: position->index "
@@ -81,7 +92,7 @@ def main():
             "guard": "cargo feature `verif` of the lsp4spl crate",
             "enable": "cargo build -p lsp4spl --features verif (done by ./setup.sh and by every check that talks to the binary)",
             "baseline_off_cmd": "cd /repo && cargo test --workspace --no-fail-fast --offline",
-            "source_commits": [],
+            "source_commits": ["e83c28f"],
             "add_only": True,
         },
         "engines": [{
